@@ -273,7 +273,7 @@ type c20Run struct {
 
 func newC20Run() *c20Run {
 	c20SuppressCounter.Store(0)
-	w := &c20World{timeout: 5 * time.Second}
+	w := &c20World{timeout: 60 * time.Second}
 	w.m = newReloadManager(make(chan reloadRequest, 1), make(chan struct{}, 1), nil)
 	w.progress = consts.ReloadDone
 	w.main, w.wkr = newC20Actor("main"), newC20Actor("worker")
@@ -638,7 +638,7 @@ func TestVerifC20RandomWalk(t *testing.T) {
 	for wi := 0; wi < walks; wi++ {
 		r := newC20Run()
 		w := r.w
-		w.timeout = 3 * time.Second
+		w.timeout = 60 * time.Second
 		signals := 3
 		var trail []string
 		// per-actor continuation: what the actor does next when chosen
